@@ -2,7 +2,7 @@
 # round-4: usage: try4.sh <Cxx> <k|harmless> [slot] [props...]  -- confirm the demo on the author's worktree
 # (/tmp/r4/wt_cNN, /tmp/r4/out_cNN), then run the check(s) against the patched tree
 prop=$1; k=$2; slot=${3:-a}; shift 3
-nn=$(echo $prop | tr -d C); wt=/tmp/r4/wt_c$nn; out=/tmp/r4/out_c$nn
+nn=$(echo $prop | tr -d C); R=${RDIR:-/tmp/r4}; wt=$R/wt_c$nn; out=$R/out_c$nn
 props="$@"; [ -z "$props" ] && props=$prop
 export CARGO_NET_OFFLINE=true
 if [ "$k" = harmless ]; then diff=$out/harmless.diff; demo=$out/demo3; else diff=$out/change$k.diff; demo=$out/demo$k; fi
